@@ -14,18 +14,24 @@ META = {
     "technique": "Coq proof over a Gallina model of pickle/encode.go + decode.go (heap with sharing and cycles) + "
                  "byte-exact correspondence on generated value graphs; opcode constants regenerated from the source on every run",
     "level_text": "Theorems (Coq, unbounded): decode(encode v) = v for every integer (all four width classes incl. the decimal "
-                  "INT form), every string/bytes of length < 2^32, every float, every arbitrarily nested immutable value "
-                  "(tree_roundtrip, tuples of any arity); the decoder appends batches of any size to the right container "
-                  "(batch_roundtrip, the F5 mechanism) and distinct trees never decode equal. See Props_C07.v for which "
-                  "heap theorem (sharing, cycles) is full and which is _partial. The model is tied to encode.go/decode.go by "
-                  "byte-exact comparison of encodings and exact comparison of canonical graph dumps on generated values "
-                  "(every width boundary, length class, container size class at every nesting position, aliasing patterns, "
-                  "host objects).",
+                  "INT form, with a proved UnmarshalText(MarshalText z) = z), every string/bytes of length < 2^32, every float, "
+                  "every arbitrarily nested immutable value (tree_roundtrip, tuples of any arity; tree_encodable: the encoder "
+                  "accepts them all); heap_roundtrip: for lists, dicts and sets of any size (any number of batches), nested, "
+                  "shared and self-referential, the decoded graph is isomorphic to the source graph (one-to-one object "
+                  "correspondence preserving kinds, contents, order and sharing; cycles included); same_encoding_iso / "
+                  "tree_distinct: values that differ never decode equal; obj_roundtrip: a host-pickled object with immutable "
+                  "constructor arguments. The model is tied to encode.go/decode.go by byte-exact comparison of encodings and "
+                  "exact comparison of canonical graph dumps on generated values (every width boundary, length class, "
+                  "container size class at every nesting position, aliasing patterns, host objects shared/nested).",
     "level_note": "Trusted: Coq kernel; the model's transcription of Go (validated by the correspondence run only); Go's "
                   "hash function for dict/set keys is abstracted to key equality (exact unless unequal tuple keys nested "
-                  "deeper than 10 collide in a 32-bit hash); the host pickler is a stateless function (object-preserving "
-                  "test pair); only *List/*Dict among Sequence/IterableMapping hosts; host objects reaching themselves "
-                  "through their own constructor arguments are excluded (the encoder does not terminate on them).",
+                  "deeper than 10 collide in a 32-bit hash). heap_roundtrip is proved for heaps whose objects the host pickler "
+                  "declines (lists, dicts, sets); host objects are proved only with immutable arguments (obj_roundtrip) and "
+                  "otherwise covered by the correspondence run (shared, nested, holding cyclic lists). Host objects that "
+                  "reach themselves through their own constructor arguments are excluded (the encoder does not terminate on "
+                  "them; dawn's recursionPickler avoids them). Only *List/*Dict among Sequence/IterableMapping hosts. "
+                  "Encoder termination on every well-formed heap is not proved (the theorems take the encoder's output as "
+                  "hypothesis; satisfiable by example and by every correspondence case).",
     "design_ref": "DESIGN.md §6 C07",
 }
 
